@@ -912,7 +912,9 @@ func (p *Parser) parseNameString() ([]byte, parseResult) {
 			return nil, parseResultFailed
 		}
 
-		endOffset = p.r.Offset() + uint32(amlNameLen*segCount)
+		// segCount is a byte: widen it before the multiplication or the length of a
+		// path with 64 or more segments wraps around
+		endOffset = p.r.Offset() + uint32(amlNameLen)*uint32(segCount)
 		if endOffset > p.r.pkgEnd {
 			return nil, parseResultFailed
 		}
